@@ -15,7 +15,7 @@ from vf.ch.lib import conc, cbool, leaves, wf
 
 NLEAF = 4
 PART = -1      # partition index substituted by the runner (-1 = everything)
-NKIND = 4
+NKIND = 3
 LENMAX = 2
 VALS = ['a', 'bb', '', 'c', 'dd', 'e']
 
@@ -118,7 +118,7 @@ def at_offset(lens: List[int], off: int, nest: bool) -> int:
     return 1
 
 
-NAVK = [(T.Whitespace, ' '), (T.Name, 'x'), (T.Comment.Single, '--c\n'), (T.Comment.Multiline.Hint, '/*+ h */'), (T.Newline, '\n')]
+NAVK = [(T.Whitespace, ' '), (T.Name, 'x'), (T.Comment.Multiline.Hint, '/*+ h */'), (T.Comment.Single, '--c\n'), (T.Newline, '\n')]
 
 
 def nav(kinds: List[int], idx: int, skip_ws: bool, skip_cm: bool, grp: bool) -> int:
